@@ -70,6 +70,8 @@ def condBound (kappa : Nat) (a : Rat) : Rat := 3 ^ ((kappa : Rat) * a).ceil.toNa
 
 /-- tolerance of the round trip at distance `a`; `none` = binary64 cannot resolve `1 - 2r` any more -/
 def invTol (kappa : Nat) (a : Rat) : Option Tol :=
+  -- (`κ a > 64` ⇒ `4 δ₀ 3^⌈κ a⌉ > 1`: the power is not even computed — distances like 1e300 are legal inputs)
+  if 64 < (kappa : Rat) * a then none else
   let c := condBound kappa a
   if 4 * delta0 * c ≤ 1 then some ⟨1 / 1000000000, 1 / 10000000000000 + 4 * delta0 * c⟩ else none
 
@@ -213,5 +215,31 @@ def specGdist (chr : List Int) (gen : List (Option Rat)) (d1? : Option (List (GD
           ("additive for ordered markers", idx.all fun i => idx.all fun j => idx.all fun k => additiveOk t chr gen d2 i j k),
           ("sequential: inf at chromosome starts", d1?.isNone || idx.all (startOk chr d1)),
           ("sequential agrees with pairwise", d1?.isNone || idx.all (seqOk t chr gen d1 d2))]
+
+/-! ### crossover-probability clause
+
+Generic in the scalar `γ` the map function is evaluated in (the driver: `γ = Float`, `cast` = nearest double,
+`f` = the Float transcription of `mapfn`, `back` = exact value of the double; `Lemmas/GMapSpecXo`: any `γ`).
+The implementation's positions are doubles sent as exact rationals, so `cast (a - b)` IS the float difference
+numpy computes (IEEE subtraction is correctly rounded). -/
+
+/-- one half at each chromosome start, otherwise the map function of the difference of consecutive
+    *interpolated* positions (`genpos` must satisfy `specInterp`), NaN where a position is missing -/
+def specXoprob {γ : Type} [Div γ] [OfNat γ 1] [OfNat γ 2] (cast : Rat → γ) (f : γ → γ) (back : GDist γ → GDist Rat)
+    (rows : List (Row Rat Int)) (qchr : List Int) (qphy : List Rat)
+    (genpos : List (Option Rat)) (xoprob : List (GDist Rat)) (t : Tol := Tol.std) : Bool × String :=
+  let n := qchr.length
+  if genpos.length != n || xoprob.length != n then (false, "shape") else
+  let (iok, imsg) := specInterp rows qchr qphy genpos genpos t
+  let c (i : Nat) : Int := qchr.getD i 0
+  let g (i : Nat) : Option Rat := genpos.getD i none
+  let p (i : Nat) : GDist Rat := xoprob.getD i .nan
+  let starts := (List.range n).all fun i => !(i == 0 || c (i - 1) != c i) || p i == .fin (1 / 2)
+  let inner := (List.range n).all fun i => (i == 0 || c (i - 1) != c i) ||
+      (match g i, g (i - 1) with
+       | some a, some b => closeD t (p i) (back (mapD f (.fin (cast (a - b)))))
+       | _, _ => p i == .nan)
+  checks [("genpos interpolated: " ++ imsg, iok), ("one half at chromosome starts", starts),
+          ("map function of consecutive distances", inner)]
 
 end GMap.Spec
